@@ -12,6 +12,8 @@ def run(rep):
     control.clause_deductive(rep, targets=['yp_generator.YPPrologCompiler.compile_expression', 'yp_generator.YPPrologCompiler.compile_list'])
     enginep.engine_deductive(rep, ['engine.Atom.unify', 'engine.unify', 'engine.Functor.unify', 'engine.get_value'] + enginep.CTOR_API, heap_lemmas=False)
     control.parse_deductive(rep)
+    # equal atom names are one atom object per engine: YP.atom against the atom table itself
+    enginep.atom_table_deductive(rep)
     # the text that is lexed is the caller's bytes decoded as utf8, whichever entry point (string, file, command line) is used
     from . import compilerp
     compilerp.io_obligations(rep)
